@@ -735,7 +735,12 @@ func (r *rewriter) rewriteFile() {
 					id.Name = "simrt"
 					r.usedRT = true
 					stats["time.Now"]++
-				} else if x.Sel.Name == "Sleep" || x.Sel.Name == "After" || x.Sel.Name == "NewTimer" || x.Sel.Name == "NewTicker" || x.Sel.Name == "AfterFunc" || x.Sel.Name == "Tick" || x.Sel.Name == "Since" || x.Sel.Name == "Until" {
+				} else if x.Sel.Name == "AfterFunc" || x.Sel.Name == "Timer" || x.Sel.Name == "Until" || x.Sel.Name == "Since" {
+					// simulated timers: fire when the simulated clock passes the deadline, run in the timer task
+					id.Name = "simrt"
+					r.usedRT = true
+					stats["time.timer"]++
+				} else if x.Sel.Name == "Sleep" || x.Sel.Name == "After" || x.Sel.Name == "NewTimer" || x.Sel.Name == "NewTicker" || x.Sel.Name == "Tick" {
 					r.unsupported(x.Pos(), "time."+x.Sel.Name+" (no simulated timer)")
 				}
 			}
